@@ -3,38 +3,40 @@
 From SV Require Import Model.Rows Model.Chunk Model.PluginKinds Proof.RowsFacts Proof.PluginKindsProof.
 
 (* ------------------------------------------------------------------------------------------ *)
-(* Plugin._fix_output                                                                          *)
+(* Plugin._fix_output.  fx = false: the code before the repairs of F1/F2 (pinned); fx = true:   *)
+(* the repaired code.  Lemmas without a hypothesis on fx hold for both.                        *)
 (* ------------------------------------------------------------------------------------------ *)
 Definition is_chunk_item (i : item) : bool := match i with IMk _ _ _ _ _ _ _ => true | _ => false end.
 
 (* a bare array of another dtype is rejected by _check_dtype *)
-Theorem fix_single_bare_wrong_dtype p dt rows s e d :
-  dt <> dtype_for p d -> fix_output_single p (IArr dt rows) (Some (s, e)) d = Err E_WRONG_OUTPUT.
+Theorem fix_single_bare_wrong_dtype fx p dt rows s e d :
+  dt <> dtype_for p d -> fix_output_single_gen fx p (IArr dt rows) (Some (s, e)) d = Err E_WRONG_OUTPUT.
 Proof. intros H. cbn. apply adt_eqb_neq in H. rewrite H. reflexivity. Qed.
 
 (* plugins without dependencies must return chunks *)
-Theorem fix_single_source_not_chunk p i d :
-  is_chunk_item i = false -> fix_output_single p i None d = Err E_SRC_NOT_CHUNK.
+Theorem fix_single_source_not_chunk fx p i d :
+  is_chunk_item i = false -> fix_output_single_gen fx p i None d = Err E_SRC_NOT_CHUNK.
 Proof. destruct i; cbn; try reflexivity; discriminate. Qed.
 
 (* neither an array, a dict of columns nor a chunk *)
-Theorem fix_single_other p range d : is_err (fix_output_single p IOther range d).
+Theorem fix_single_other fx p range d : is_err (fix_output_single_gen fx p IOther range d).
 Proof. destruct range as [[s e]|]; cbn; exact I. Qed.
 
 (* a dict with a field the declared dtype does not have *)
-Theorem fix_single_unknown_field p fs rows s e d :
-  forallb (has_field (dtype_for p d)) fs = false -> is_err (fix_output_single p (ICols fs rows) (Some (s, e)) d).
+Theorem fix_single_unknown_field fx p fs rows s e d :
+  forallb (has_field (dtype_for p d)) fs = false ->
+  is_err (fix_output_single_gen fx p (ICols fs rows) (Some (s, e)) d).
 Proof. intros H. cbn. destruct (length fs =? 1)%nat; cbn; [exact I|]. rewrite H. exact I. Qed.
 
 (* self.chunk(...) around data of another dtype: the constructor's comparison rejects it *)
-Theorem fix_single_self_chunk_wrong_dtype p dt label kind s e rows range d :
+Theorem fix_single_self_chunk_wrong_dtype fx p dt label kind s e rows range d :
   dt <> dtype_for p label ->
-  fix_output_single p (IMk (dtype_for p label) dt label kind s e rows) range d = Err E_CTOR_DTYPE.
+  fix_output_single_gen fx p (IMk (dtype_for p label) dt label kind s e rows) range d = Err E_CTOR_DTYPE.
 Proof. intros H. cbn. rewrite mk_xchunk_wrong_dtype; auto. Qed.
 
 (* a chunk labelled with another data type is rejected *)
-Theorem fix_single_label p declared dt label kind s e rows range d :
-  label <> d -> is_err (fix_output_single p (IMk declared dt label kind s e rows) range d).
+Theorem fix_single_label fx p declared dt label kind s e rows range d :
+  label <> d -> is_err (fix_output_single_gen fx p (IMk declared dt label kind s e rows) range d).
 Proof.
   intros Hl. cbn. destruct (mk_xchunk declared dt s e rows label kind (Some (p_run p)) (p_tgt p)) eqn:E; cbn; [|exact I].
   apply mk_xchunk_ok in E as (_ & _ & E). apply mk_chunk_ok_fields in E. rewrite E. cbn.
@@ -42,10 +44,10 @@ Proof.
 Qed.
 
 (* rows outside the carrying range (bare array wrapped by the framework, at most W sorted rows) *)
-Theorem fix_single_rows_outside p rows s e d :
+Theorem fix_single_rows_outside fx p rows s e d :
   sorted rows -> (length rows <= end_window)%nat ->
   Exists (fun r => rt r < s \/ re r > e) rows ->
-  is_err (fix_output_single p (IArr (dtype_for p d) rows) (Some (s, e)) d).
+  is_err (fix_output_single_gen fx p (IArr (dtype_for p d) rows) (Some (s, e)) d).
 Proof.
   intros Hs Hl Hx. cbn. rewrite adt_eqb_refl. cbn.
   apply mk_xchunk_err_iff. right. apply ctor_rejects_outside; auto.
@@ -61,35 +63,40 @@ Proof.
 Qed.
 
 (* what an accepted output of _fix_output looks like *)
-Theorem fix_single_ok_inv p i range d x :
-  fix_output_single p i range d = Ok x ->
+Theorem fix_single_ok_inv fx p i range d x :
+  fix_output_single_gen fx p i range d = Ok x ->
   cdtype (xc x) = d /\ range_ok (xc x) /\
   (is_chunk_item i = false -> xdt x = dtype_for p d) /\
-  (forall declared dt label kind s e rows, i = IMk declared dt label kind s e rows -> xdt x = declared /\ dt = declared).
+  (forall declared dt label kind s e rows, i = IMk declared dt label kind s e rows -> xdt x = declared /\ dt = declared) /\
+  (fx = true -> xdt x = dtype_for p d).
 Proof.
   destruct i as [dt rows|declared dt label kind s e rows|fs rows|].
   - destruct range as [[s e]|]; cbn; [|discriminate].
     destruct (adt_eqb dt (dtype_for p d)); cbn; [|discriminate]. intros H.
     apply mk_xchunk_ok in H as (_ & H2 & H3). pose proof (mk_chunk_ok_fields _ _ _ _ _ _ _ _ H3) as E.
     split; [rewrite E; reflexivity|]. split; [eapply mk_chunk_ok_range_ok; eauto|].
-    split; [auto|intros; discriminate].
+    split; [auto|]. split; [intros; discriminate|auto].
   - cbn. destruct (mk_xchunk declared dt s e rows label kind (Some (p_run p)) (p_tgt p)) as [x0|] eqn:E; cbn; [|discriminate].
-    destruct (cdtype (xc x0) =? d) eqn:E2; [|discriminate]. intros H; inversion H; subst.
+    destruct (cdtype (xc x0) =? d) eqn:E2; [|discriminate].
+    destruct (fx && negb (adt_eqb (xdt x0) (dtype_for p d))) eqn:E5; [discriminate|].
+    intros H; inversion H; subst.
     apply Z.eqb_eq in E2. apply mk_xchunk_ok in E as (E1 & E3 & E4).
     split; [auto|]. split; [eapply mk_chunk_ok_range_ok; eauto|].
-    split; [discriminate|]. intros ? ? ? ? ? ? ? H0. inversion H0; subst; auto.
+    split; [discriminate|]. split.
+    + intros ? ? ? ? ? ? ? H0. inversion H0; subst; auto.
+    + intros ->. cbn in E5. apply negb_false_iff in E5. apply adt_eqb_eq in E5. exact E5.
   - destruct range as [[s e]|]; cbn; [|discriminate].
     destruct (length fs =? 1)%nat; cbn; [discriminate|].
     destruct (forallb (has_field (dtype_for p d)) fs); cbn; [|discriminate]. intros H.
     apply mk_xchunk_ok in H as (_ & H2 & H3). pose proof (mk_chunk_ok_fields _ _ _ _ _ _ _ _ H3) as E.
     split; [rewrite E; reflexivity|]. split; [eapply mk_chunk_ok_range_ok; eauto|].
-    split; [auto|intros; discriminate].
+    split; [auto|]. split; [intros; discriminate|auto].
   - destruct range as [[s e]|]; cbn; discriminate.
 Qed.
 
 (* hence: at most W sorted rows, all inside the chunk that carries them *)
-Corollary fix_single_ok_rows_inside p i range d x :
-  fix_output_single p i range d = Ok x ->
+Corollary fix_single_ok_rows_inside fx p i range d x :
+  fix_output_single_gen fx p i range d = Ok x ->
   sorted (crows (xc x)) -> (length (crows (xc x)) <= end_window)%nat ->
   0 <= cstart (xc x) <= cend (xc x) /\
   Forall (fun r => cstart (xc x) <= rt r /\ re r <= cend (xc x)) (crows (xc x)).
@@ -103,16 +110,28 @@ Proof.
     [exfalso; apply Hr; right; right; apply Exists_exists; exists r; auto|]. lia.
 Qed.
 
-(* The dtype of an accepted output is the declared one -- provided chunks are built with the
-   plugin's declared dtype (self.chunk).  Without that proviso the statement is false. *)
-Definition full_fix_output_dtype : Prop :=
-  forall p i range d x, fix_output_single p i range d = Ok x -> xdt x = dtype_for p d.
+(* The dtype of an accepted output is the declared one: for the repaired code always ... *)
+Theorem fix_output_dtype_repaired p i range d x :
+  fix_output_single_gen true p i range d = Ok x -> xdt x = dtype_for p d.
+Proof. intros H. apply fix_single_ok_inv in H as (_ & _ & _ & _ & H). auto. Qed.
 
-Theorem fix_output_dtype_partial p i range d x :
-  (forall declared dt label kind s e rows, i = IMk declared dt label kind s e rows -> declared = dtype_for p d) ->
-  fix_output_single p i range d = Ok x -> xdt x = dtype_for p d.
+(* ... and a chunk of another dtype than declared is rejected by the repaired code *)
+Theorem fix_single_raw_chunk_wrong_dtype_repaired p declared dt label kind s e rows range d :
+  declared <> dtype_for p d ->
+  is_err (fix_output_single_gen true p (IMk declared dt label kind s e rows) range d).
 Proof.
-  intros Hd H. apply fix_single_ok_inv in H as (_ & _ & H1 & H2).
+  intros Hd. destruct (fix_output_single_gen true p (IMk declared dt label kind s e rows) range d) as [x|] eqn:E;
+    [|exact I].
+  pose proof (fix_output_dtype_repaired _ _ _ _ _ E) as H1.
+  apply fix_single_ok_inv in E as (_ & _ & _ & H2 & _). destruct (H2 _ _ _ _ _ _ _ eq_refl) as [H3 _]. congruence.
+Qed.
+
+(* ... for the code before the repair only if chunks are built with the declared dtype *)
+Theorem fix_output_dtype_partial fx p i range d x :
+  (forall declared dt label kind s e rows, i = IMk declared dt label kind s e rows -> declared = dtype_for p d) ->
+  fix_output_single_gen fx p i range d = Ok x -> xdt x = dtype_for p d.
+Proof.
+  intros Hd H. apply fix_single_ok_inv in H as (_ & _ & H1 & H2 & _).
   destruct i as [dt rows|declared dt label kind s e rows|fs rows|]; try (apply H1; reflexivity).
   destruct (H2 _ _ _ _ _ _ _ eq_refl) as [-> _]. eapply Hd; reflexivity.
 Qed.
@@ -120,52 +139,53 @@ Qed.
 Definition escape_plugin : pdecl := mkp KOrdinary [2] [(2, [(1, 3); (2, 3)])] [(2, 2)] 0 1.
 Definition escape_item : item := IMk [(1, 3); (2, 3); (5, 1)] [(1, 3); (2, 3); (5, 1)] 2 2 0 10 [mkrow 1 2 0 0].
 
-Theorem fix_output_dtype_refuted :
-  exists p i range d x, fix_output_single p i range d = Ok x /\ xdt x <> dtype_for p d.
+(* F1: the code before the repair accepted it *)
+Theorem fix_output_dtype_pinned_refuted :
+  exists p i range d x, fix_output_single_gen false p i range d = Ok x /\ xdt x <> dtype_for p d.
 Proof.
   exists escape_plugin, escape_item, (Some (0, 10)), 2.
   eexists. split; [vm_compute; reflexivity|vm_compute; discriminate].
 Qed.
 
 (* multi-output plugins must return a dict with every provided data type *)
-Theorem fix_output_multi_requires_dict p i range :
-  multi_output p = true -> fix_output p (VItem i) range = Err E_NOT_DICT.
-Proof. intros H. unfold fix_output. rewrite H. reflexivity. Qed.
+Theorem fix_output_multi_requires_dict fx p i range :
+  multi_output p = true -> fix_output_gen fx p (VItem i) range = Err E_NOT_DICT.
+Proof. intros H. unfold fix_output_gen. rewrite H. reflexivity. Qed.
 
-Lemma fix_each_missing p l range ds d :
-  In d ds -> assoc d l = None -> is_err (fix_each p l range ds).
+Lemma fix_each_missing fx p l range ds d :
+  In d ds -> assoc d l = None -> is_err (fix_each_gen fx p l range ds).
 Proof.
-  induction ds as [|d' ds IH]; intros Hin Ha; [destruct Hin|]. cbn [fix_each].
+  induction ds as [|d' ds IH]; intros Hin Ha; [destruct Hin|]. cbn [fix_each_gen].
   destruct Hin as [->|Hin].
   - rewrite Ha. exact I.
-  - destruct (assoc d' l); [|exact I]. destruct (fix_output_single p i range d'); cbn; [|exact I].
-    specialize (IH Hin Ha). destruct (fix_each p l range ds); cbn; [destruct IH|exact I].
+  - destruct (assoc d' l); [|exact I]. destruct (fix_output_single_gen fx p i range d'); cbn; [|exact I].
+    specialize (IH Hin Ha). destruct (fix_each_gen fx p l range ds); cbn; [destruct IH|exact I].
 Qed.
 
-Theorem fix_output_multi_missing_key p l range d :
-  multi_output p = true -> In d (p_provides p) -> assoc d l = None -> is_err (fix_output p (VDict l) range).
-Proof. intros H Hin Ha. unfold fix_output. rewrite H. eapply fix_each_missing; eauto. Qed.
+Theorem fix_output_multi_missing_key fx p l range d :
+  multi_output p = true -> In d (p_provides p) -> assoc d l = None -> is_err (fix_output_gen fx p (VDict l) range).
+Proof. intros H Hin Ha. unfold fix_output_gen. rewrite H. eapply fix_each_missing; eauto. Qed.
 
-Lemma fix_each_labels p l range ds cs :
-  fix_each p l range ds = Ok cs -> map (fun x => cdtype (xc x)) cs = ds.
+Lemma fix_each_labels fx p l range ds cs :
+  fix_each_gen fx p l range ds = Ok cs -> map (fun x => cdtype (xc x)) cs = ds.
 Proof.
-  revert cs; induction ds as [|d ds IH]; intros cs; cbn [fix_each]; [intros H; inversion H; reflexivity|].
-  destruct (assoc d l); [|discriminate]. destruct (fix_output_single p i range d) eqn:E; cbn; [|discriminate].
-  destruct (fix_each p l range ds) eqn:E2; cbn; [|discriminate]. intros H; inversion H; subst. cbn.
+  revert cs; induction ds as [|d ds IH]; intros cs; cbn [fix_each_gen]; [intros H; inversion H; reflexivity|].
+  destruct (assoc d l); [|discriminate]. destruct (fix_output_single_gen fx p i range d) eqn:E; cbn; [|discriminate].
+  destruct (fix_each_gen fx p l range ds) eqn:E2; cbn; [|discriminate]. intros H; inversion H; subst. cbn.
   apply fix_single_ok_inv in E as (-> & _). rewrite (IH _ eq_refl). reflexivity.
 Qed.
 
 (* every accepted message carries exactly the promised data types, in order *)
-Theorem fix_output_ok_labels p v range cs :
-  fix_output p v range = Ok cs -> map (fun x => cdtype (xc x)) cs = p_provides p.
+Theorem fix_output_ok_labels fx p v range cs :
+  fix_output_gen fx p v range = Ok cs -> map (fun x => cdtype (xc x)) cs = p_provides p.
 Proof.
-  unfold fix_output. destruct (multi_output p) eqn:M.
+  unfold fix_output_gen. destruct (multi_output p) eqn:M.
   - destruct v; [discriminate|]. apply fix_each_labels.
   - unfold multi_output in M. apply Z.ltb_ge in M.
     destruct (p_provides p) as [|d [|d' ds]] eqn:P; cbn [length] in M; try lia.
     + destruct v; discriminate.
     + destruct v as [i|l].
-      * destruct (fix_output_single p i range d) eqn:E; cbn; [|discriminate].
+      * destruct (fix_output_single_gen fx p i range d) eqn:E; cbn; [|discriminate].
         intros H; inversion H; subst. cbn. apply fix_single_ok_inv in E as (-> & _). reflexivity.
       * destruct (length l =? 1)%nat; discriminate.
 Qed.
@@ -173,29 +193,43 @@ Qed.
 (* ------------------------------------------------------------------------------------------ *)
 (* DownChunkingPlugin._fix_output                                                              *)
 (* ------------------------------------------------------------------------------------------ *)
-Theorem down_requires_generator p v range :
-  p_kind p = KDown -> do_compute_out p (PVal v) range = [Err E_NOT_GENERATOR].
-Proof. intros H. unfold do_compute_out. rewrite H. reflexivity. Qed.
+Theorem down_requires_generator fx p v range :
+  p_kind p = KDown -> do_compute_out_gen fx p (PVal v) range = [Err E_NOT_GENERATOR].
+Proof. intros H. unfold do_compute_out_gen. rewrite H. reflexivity. Qed.
 
-Theorem down_requires_chunks p i : is_chunk_item i = false -> is_err (down_one p (VItem i)).
+Theorem down_requires_chunks fx p i : is_chunk_item i = false -> is_err (down_one_gen fx p (VItem i)).
 Proof. destruct i; cbn; try discriminate; intros _; destruct (multi_output p); exact I. Qed.
 
-Theorem down_chunk_ctor_checked p declared dt label kind s e rows :
-  declared <> dt -> is_err (down_one p (VItem (IMk declared dt label kind s e rows))).
+Theorem down_chunk_ctor_checked fx p declared dt label kind s e rows :
+  declared <> dt -> is_err (down_one_gen fx p (VItem (IMk declared dt label kind s e rows))).
 Proof. intros H. cbn. rewrite mk_xchunk_wrong_dtype; auto. exact I. Qed.
 
-(* ... but neither the label nor the plugin's declared dtype is compared (findings F1, F2) *)
+(* the repaired code compares label and dtype of every yielded chunk *)
+Theorem down_label_dtype_repaired p i x :
+  down_one_gen true p (VItem i) = Ok [x] ->
+  In (cdtype (xc x)) (p_provides p) /\ xdt x = dtype_for p (cdtype (xc x)).
+Proof.
+  unfold down_one_gen. destruct (build_item p i) as [oc|]; cbn; [|discriminate].
+  destruct (multi_output p); [discriminate|].
+  destruct oc as [c|]; [|discriminate]. destruct (p_provides p) as [|d ds]; [discriminate|].
+  unfold down_check. destruct (cdtype (xc c) =? d) eqn:E; cbn; [|discriminate].
+  destruct (adt_eqb (xdt c) (dtype_for p d)) eqn:E2; cbn; [|discriminate].
+  intros H; inversion H; subst. apply Z.eqb_eq in E. apply adt_eqb_eq in E2.
+  split; [left; auto|rewrite E; auto].
+Qed.
+
+(* F2 (and F1 for down-chunking): the code before the repair compared neither *)
 Definition down_witness_plugin : pdecl := mkp KDown [2] [(2, [(1, 3); (2, 3)])] [(2, 2)] 0 1.
 Definition down_witness_item : item := IMk [(1, 3); (2, 3)] [(1, 3); (2, 3)] 9 2 0 10 [mkrow 1 2 0 0].
 
-Theorem down_label_refuted :
-  exists p i x, multi_output p = false /\ down_one p (VItem i) = Ok [x] /\ ~ In (cdtype (xc x)) (p_provides p).
+Theorem down_label_pinned_refuted :
+  exists p i x, multi_output p = false /\ down_one_gen false p (VItem i) = Ok [x] /\
+                ~ In (cdtype (xc x)) (p_provides p).
 Proof.
   exists down_witness_plugin, down_witness_item. eexists.
   split; [reflexivity|]. split; [vm_compute; reflexivity|].
   vm_compute. intros [H|H]; [discriminate|exact H].
 Qed.
-
 (* ------------------------------------------------------------------------------------------ *)
 (* The run: savers, continuity check, exception path                                           *)
 (* ------------------------------------------------------------------------------------------ *)
